@@ -3,7 +3,7 @@
 evidence/*.json, seeds/, seeded/*/meta.json and benign/*/status.json."""
 import json, glob, os, re
 V = os.path.dirname(os.path.dirname(os.path.abspath(__file__)))
-PROPS = ["C01","C02","C03","C04","C05","C06","C07","C08","C09","C10","C11","C12","C13","C14","C15","C16","C18","C19","C20"]
+PROPS = ["C01","C02","C03","C04","C05","C06","C07","C08","C09","C10","C11","C12","C13","C14","C15","C16","C17","C18","C19","C20"]
 ADDED = json.load(open(os.path.join(V, "tools", "design_added.json")))
 out = []
 w = out.append
@@ -33,7 +33,7 @@ for p in PROPS:
     w(f"| {p} | {'; '.join(fire)} | {'; '.join(silent)} |")
 w("")
 w("### 11.3 Sub-agent mutants (`seeded/<id>/`: patch.diff, demo_test.go, notes.md, meta.json)\n")
-w("Each was confirmed in a scratch worktree (applies, builds, suite passes, demonstration fails with it and passes without it) and then applied to `/repo`, checked, and undone. Round 1 ids `-agent-`, round 2 `-agent2-`, round 3 `-agent3-`, round 4 `-agent4-`.\n")
+w("Each was confirmed in a scratch worktree (applies, builds, suite passes, demonstration fails with it and passes without it) and then applied to `/repo`, checked, and undone. Round 1 ids `-agent-`, round 2 `-agent2-`, round 3 `-agent3-`, round 4 `-agent4-`, round 5 `-agent5-`.\n")
 w("| id | change | reported by | history |")
 w("|---|---|---|---|")
 for d in sorted(glob.glob(os.path.join(V, "seeded", "*"))):
@@ -42,7 +42,7 @@ for d in sorted(glob.glob(os.path.join(V, "seeded", "*"))):
         continue
     m = json.load(open(mp))
     b = (m.get("breaks") or [""])[0].lstrip("# ").strip().replace("|", "/")
-    b = re.sub(r"^C\d\d\s*(r[234]\s*)?mutant\s*\d\s*[-—–:]*\s*", "", b, flags=re.I)
+    b = re.sub(r"^C\d\d\s*(r[2345]\s*)?mutant\s*\d\s*[-—–:]*\s*", "", b, flags=re.I)
     rules = []
     for l in m.get("check_report", []):
         mm = re.search(r"(C\d\d\.\w+) violated", l)
